@@ -522,6 +522,7 @@ PROPS["C19"] = {
         Leg("long-idle", "c19", "^TestLongIdle$", engine="process", app=["proxy"], checks=(1, 2), shards=(2, 4), tests=["long-idle"], replay_attempts=2),
         Leg("hangup", "c19", "^TestHangup$", engine="process", app=["proxy"], checks=(4, 40), shards=(4, 8), tests=["hangup"], replay_attempts=3),
         Leg("relay-no-tzdata", "c19", "^TestRelay$", engine="process", app=["proxy"], wrap="no-tzdata", tags="notzdata", env={"ZONEINFO": ""}, checks=(30, 600), shards=(2, 8), tests=["relay"], replay_attempts=3),
+        Leg("slow-client", "c19", "^TestSlowClient$", engine="process", app=["proxy"], checks=(1, 1), shards=(2, 2), tests=["slow-client"], replay_attempts=1),
         Leg("two-sessions", "c19", "^TestTwoSessions$", engine="process", app=["proxy"], checks=(2, 12), shards=(2, 4), tests=["two-sessions"], replay_attempts=2),
         Leg("relay", "c19", "^TestRelay$", engine="process", app=["proxy"], checks=(40, 5000), shards=(8, 16), tests=["relay"], replay_attempts=3),
     ],
